@@ -280,7 +280,9 @@ def write_evidence(prop, tier, base_seed, mod, batch, wall, violations, known_hi
         'assumptions': getattr(mod, 'ASSUMPTIONS', []) + ASSUMPTIONS_DEFAULT,
     }
     ev['coverage'].update(extra.get('coverage', {}))
-    _write_json(os.path.join(core.VERIF, 'evidence', '%s.json' % prop), ev)
+    # evidence is only ever written for /repo itself; runs against scratch trees (mutant testing) go to out/
+    evdir = os.path.join(core.VERIF, 'evidence') if os.path.realpath(core.REPO) == '/repo' else os.path.join(OUT, 'evidence-scratch')
+    _write_json(os.path.join(evdir, '%s.json' % prop), ev)
     return ev
 
 
